@@ -31,11 +31,22 @@ def main():
     assert rc == 0, out
     dst = os.path.join(ROOT, "seeded", name)
     os.makedirs(dst, exist_ok=True)
-    patch = os.path.join(src, x + ".patch.diff")
-    demo = os.path.join(src, "demo_%s.rs" % x)
-    shutil.copy(patch, os.path.join(dst, "patch.diff"))
-    shutil.copy(demo, os.path.join(dst, "demo.rs"))
-    meta_txt = open(os.path.join(src, x + ".meta.txt")).read() if os.path.exists(os.path.join(src, x + ".meta.txt")) else ""
+    if x == "-":      # layout <dir>/patch.diff, demo.rs (fn main), notes.txt
+        patch = os.path.join(src, "patch.diff")
+        demo = os.path.join(src, "demo.rs")
+        meta_txt = open(os.path.join(src, "notes.txt")).read() if os.path.exists(os.path.join(src, "notes.txt")) else ""
+    else:
+        patch = os.path.join(src, x + ".patch.diff")
+        demo = os.path.join(src, "demo_%s.rs" % x)
+        meta_txt = open(os.path.join(src, x + ".meta.txt")).read() if os.path.exists(os.path.join(src, x + ".meta.txt")) else ""
+    if os.path.abspath(patch) != os.path.abspath(os.path.join(dst, "patch.diff")):
+        shutil.copy(patch, os.path.join(dst, "patch.diff"))
+        shutil.copy(demo, os.path.join(dst, "demo.rs"))
+    dtxt = open(demo).read()
+    if "#[test]" not in dtxt and "fn main" in dtxt:
+        # a `fn main` demonstration is run as one test
+        demo = "/tmp/seedwt/%s.demo.rs" % name
+        open(demo, "w").write(dtxt + "\n#[test]\nfn seed_demo_main() { main() }\n")
     env = dict(os.environ, CARGO_NET_OFFLINE="true", CARGO_TARGET_DIR="/tmp/seedwt/target-" + name)
     env.pop("RUSTFLAGS", None)
     os.makedirs(os.path.join(wt, "tests"), exist_ok=True)
